@@ -10,6 +10,7 @@
 From FV Require Import Base.Bytes Codec.Value Codec.Dec Proofs.DecTotal.
 From FV Require Import Conn.Lifecycle Proofs.LifecycleProofs Session.SessLife Auth.SaslListener Proofs.SaslProofs.
 From FV Require Import Frame.AmqpFrame Proofs.AmqpFrameProofs Conn.WireEvents Proofs.WireEventsProofs.
+From FV Require Import Frame.SaslFrame Proofs.SaslFrameProofs.
 Open Scope N_scope.
 
 (** whatever bytes a frame body holds, decoding them returns a value or an error - never a panic,
@@ -48,6 +49,12 @@ Theorem C15_frame_decoder_total :
   forall bs, (forall fuel, dec_frame fuel bs <> Panic) /\ dec_frame (S (length bs)) bs <> OutOfFuel.
 Proof. exact dec_frame_total. Qed.
 Print Assumptions C15_frame_decoder_total.
+
+(** ... and so is the SASL frame decoder *)
+Theorem C15_sasl_frame_decoder_total :
+  forall bs, (forall fuel, dec_sasl_frame fuel bs <> Panic) /\ dec_sasl_frame (S (length bs)) bs <> OutOfFuel.
+Proof. exact dec_sasl_frame_total. Qed.
+Print Assumptions C15_sasl_frame_decoder_total.
 
 (** frames of an unknown type or with an extended header, and frames shorter than their header, are errors *)
 Theorem C15_malformed_frame_header_is_an_error :
